@@ -103,6 +103,7 @@ func infra(format string, a ...interface{}) {
 }
 
 var scratch string
+var explicitSeeds []int64
 
 func cleanup() {
 	if scratch != "" && os.Getenv("VERIF_KEEP_SCRATCH") == "" {
@@ -259,6 +260,25 @@ func crashSignature(stderr string) (sig, detail string) {
 	}
 	if strings.Contains(msg, "stack exceeds") || strings.Contains(stderr, "stack overflow") {
 		class = "fatal error: stack overflow"
+		// unbounded (mutual) recursion: the frame that happens to hit the limit varies; the set of
+		// functions on the cycle does not
+		if i := strings.Index(stderr, "goroutine "); i >= 0 {
+			seen := map[string]bool{}
+			var cyc []string
+			for k, m := range frameRe.FindAllStringSubmatch(stderr[i:], 60) {
+				if k >= 60 {
+					break
+				}
+				if !seen[m[1]] {
+					seen[m[1]] = true
+					cyc = append(cyc, m[1][strings.LastIndex(m[1], "/")+1:])
+				}
+			}
+			sort.Strings(cyc)
+			if len(cyc) > 0 {
+				fn = "cycle{" + strings.Join(cyc, ",") + "}"
+			}
+		}
 	}
 	return class + " @ " + fn, clipTail(stderr, 3000)
 }
@@ -383,11 +403,17 @@ func main() {
 	workers := fs.Int("workers", 16, "worker processes")
 	maxSeeds := fs.Int("max-seeds", 0, "stop after this many seeds (0 = budget only)")
 	noMin := fs.Bool("no-minimise", false, "report violations without minimising")
+	seedList := fs.String("seeds", "", "comma-separated explicit seeds (instead of the VERIF_SEED-derived range)")
 	fs.Parse(os.Args[3:])
 	seed, _ := strconv.ParseInt(envOr("VERIF_SEED", "1"), 10, 64)
 	race := prop == "C10"
 	switch mode {
 	case "check":
+		for _, x := range strings.Split(*seedList, ",") {
+			if n, err := strconv.ParseInt(strings.TrimSpace(x), 10, 64); err == nil {
+				explicitSeeds = append(explicitSeeds, n)
+			}
+		}
 		os.Exit(check(prop, *tier, seed, *budget, *workers, *maxSeeds, race, *noMin))
 	case "det":
 		n := *maxSeeds
@@ -436,6 +462,13 @@ func check(prop, tier string, seed int64, budget, workers, maxSeeds int, race, n
 	takeBatch := func() []int64 {
 		nmu.Lock()
 		defer nmu.Unlock()
+		if explicitSeeds != nil {
+			if next > 0 {
+				return nil
+			}
+			next = 1
+			return explicitSeeds
+		}
 		if time.Now().After(deadline) || (maxSeeds > 0 && int(next) >= maxSeeds) {
 			return nil
 		}
